@@ -54,6 +54,9 @@ class Forget(DoitCmdBase):
             tasks = dict([(t.name, t) for t in self.task_list])
             check_tasks_exist(tasks, self.sel_tasks)
             forget_list = self.sel_tasks
+            if forget_list is None:
+                # no default tasks configured, use all tasks
+                forget_list = [t.name for t in self.task_list]
 
             if forget_sub:
                 to_forget = list(tasks_and_deps_iter(tasks, forget_list, True))
